@@ -11,6 +11,7 @@
 #include <tlx/sort/parallel_mergesort.hpp>
 
 #include <algorithm>
+#include <atomic>
 #include <deque>
 
 namespace {
@@ -47,6 +48,7 @@ void generate(Rng& r, Workload& w, int tier) {
     }
 }
 
+std::atomic<int> g_cmp_moved_from{0};
 template <class T> int keyof(const T& t);
 template <> int keyof<Pod>(const Pod& p) { return p.key; }
 template <> int keyof<sim::Tracked>(const sim::Tracked& p) { return p.k(); }
@@ -68,7 +70,10 @@ void run(const Workload& w, Result& res) {
     {
         std::vector<T> v;
         v.reserve(w.ops.size());
-        for (size_t i = 0; i < w.ops.size(); ++i) v.push_back(T{int(w.ops[i].empty() ? 0 : sim::modn(w.ops[i][0], 100000)), int(i)});
+        // the sort starts min(threads, n) threads: with a huge thread count the input is kept within what the
+        // simulator can run (128 simulated threads)
+        const size_t n_used = threads > 100 ? std::min<size_t>(w.ops.size(), 100) : w.ops.size();
+        for (size_t i = 0; i < n_used; ++i) v.push_back(T{int(w.ops[i].empty() ? 0 : sim::modn(w.ops[i][0], 100000)), int(i)});
         std::vector<std::pair<int, int> > in;
         for (auto& e : v) in.emplace_back(keyof(e), e.idx);
         const size_t n = v.size();
@@ -79,7 +84,13 @@ void run(const Workload& w, Result& res) {
         struct Cmp {
             bool greater;
             mutable uint64_t calls = 0;
-            bool operator()(const T& a, const T& b) const { ++calls; return greater ? keyof(a) > keyof(b) : keyof(a) < keyof(b); }
+            bool operator()(const T& a, const T& b) const {
+                ++calls;
+                // an element that has been moved from has no value any more: handing it to the user's comparator
+                // is a use of an object outside its (value) lifetime
+                if (keyof(a) == sim::Tracked::MOVED_FROM || keyof(b) == sim::Tracked::MOVED_FROM) g_cmp_moved_from.store(1, std::memory_order_relaxed);
+                return greater ? keyof(a) > keyof(b) : keyof(a) < keyof(b);
+            }
         };
         Cmp cmp{greater};
         // "every input range": a vector, a deque (not contiguous) or reverse iterators (backwards in memory)
@@ -110,6 +121,7 @@ void run(const Workload& w, Result& res) {
         }
         (void)extra_live;
         const int64_t live2 = sim::tracked_live();
+        if (g_cmp_moved_from.exchange(0)) res.fail("pmsort_moved_from_compared", "the comparator was called with an element that had been moved from");
 
         std::vector<std::pair<int, int> > out;
         for (auto& e : v) out.emplace_back(keyof(e), e.idx);
